@@ -287,6 +287,7 @@ func c16Trees() []histCase {
 	pb := (&spec.Data{}).Add("p", &spec.Value{T: spec.FixedType("PersonB"), Items: []*spec.Value{spec.IntOf(spec.TInt, 44), spec.String("Bob"), spec.String("bob@x")}})
 	files["person"] = "<p>{{ p.name }} {{ p.age }} {{ p }}</p>"
 	// a component that takes nothing still shows the data of the render that uses it
+	files["dumps"] = "<d>@dump(items)</d>@dump(name, flag)"
 	files["hello"] = "Hello, {{ name }}!"
 	files["greet"] = "<h1>@component(\"hello\");</h1>@each(i in items)@component(\"hello\");@end"
 	d2 := specData(map[string]any{"name": "Other", "items": []int{7}, "flag": false})
@@ -299,6 +300,7 @@ func c16Trees() []histCase {
 		{Kind: "string", Name: "setsT", Data: nil}, {Kind: "string", Name: "readsT", Data: nil}, {Kind: "string", Name: "retypesT", Data: nil},
 		{Kind: "response", Name: "setsT", Data: empty}, {Kind: "response", Name: "readsT", Data: empty}, {Kind: "string", Name: "setsT", Data: d},
 		{Kind: "evalfile", Name: "setsT", Data: nil}, {Kind: "evalstring", Src: "{{ t0 }}", Data: nil},
+		{Kind: "string", Name: "dumps", Data: d}, {Kind: "evalstring", Src: "@dump(items)@dump({a: 1})", Data: d}, {Kind: "response", Name: "dumps", Data: d2},
 		{Kind: "string", Name: "greet", Data: d}, {Kind: "string", Name: "greet", Data: d2}, {Kind: "response", Name: "greet", Data: nil},
 		{Kind: "string", Name: "person", Data: pa}, {Kind: "string", Name: "person", Data: pb}, {Kind: "evalstring", Src: "{{ p.email }}/{{ p.Age }}", Data: pb},
 	}
@@ -331,7 +333,7 @@ func c16NonTrivial(cs histCase) bool {
 func TestC16_HistoriesEnum(t *testing.T) {
 	maxLen := harness.Pick(2, 3)
 	c := harness.New(t, "C16", "histories-enum",
-		fmt.Sprintf("every history of length <= %d (2 quick, 3 thorough) over 28 operation instances {String, Response, EvaluateString, EvaluateFile} x {succeeding, failing at run time, not found} on a template directory with layout, component, loops and objects, under up to 6 configurations (debug on/off x no / working / missing / failing custom error page). Each operation's result (output, or error message + line + path, Response body + returned error) must equal the result of the same operation issued first after a fresh load; afterwards all operations still give their baselines, the configuration is unchanged and the caller's data is deep-equal to a copy. Non-trivial: a failing render or failing Response after a string/file evaluation or an error page. Distinct by construction.", maxLen))
+		fmt.Sprintf("every history of length <= %d (2 quick, 3 thorough) over 31 operation instances {String, Response, EvaluateString, EvaluateFile} x {succeeding, failing at run time, not found} on a template directory with layout, component, loops and objects, under up to 6 configurations (debug on/off x no / working / missing / failing custom error page). Each operation's result (output, or error message + line + path, Response body + returned error) must equal the result of the same operation issued first after a fresh load; afterwards all operations still give their baselines, the configuration is unchanged and the caller's data is deep-equal to a copy. Non-trivial: a failing render or failing Response after a string/file evaluation or an error page. Distinct by construction.", maxLen))
 	defer c.Finish()
 	trees := c16Trees()
 	ntrees := len(trees)
@@ -370,7 +372,7 @@ func TestC16_HistoriesEnum(t *testing.T) {
 		}
 		rec(nil)
 	}
-	c.ExhaustivePart(fmt.Sprintf("all histories of length <= %d over 28 operations x %d configurations", maxLen, ntrees))
+	c.ExhaustivePart(fmt.Sprintf("all histories of length <= %d over 31 operations x %d configurations", maxLen, ntrees))
 }
 
 func TestC16_HistoriesRandom(t *testing.T) {
